@@ -16,7 +16,7 @@ RULE = ('Exhaustive: for file sets of n = 1..5 (quick: 4 file sets; thorough: n 
         'completion order, imposed through a caller-supplied executor that completes task perm[i] only after the result of perm[i-1] was '
         'collected (so concurrent.futures.as_completed yields exactly that order). Generated: n = 1..8 files with pairwise distinct '
         'signatures, executor kind in {ordered(drawn permutation), instant (all done before collection), real thread pool, real process '
-        'pool, sequential}, max_workers in {1,2,3,8,16}, size skew (first file 300 kb, rest ~1 kb), and a fault at a drawn position '
+        'pool, sequential, the `gambit signatures create -c N` command line}, max_workers in {1,2,3,8,16}, size skew (first file 300 kb, rest ~1 kb), and a fault at a drawn position '
         '(missing file, directory, truncated gzip, invalid UTF-8, binary junk). Oracle: result is a SignatureList of length n with '
         'result[i] == calc_file_signature(files[i]) and the right k-mer spec; a supplied executor is not shut down; if the single-file '
         'computation of some file raises, the whole call raises. Non-trivial: completion order differs from submission order, or a '
@@ -28,7 +28,7 @@ DEADLINE_S = {'quick': 240, 'thorough': 2400}
 
 
 def budget(tier):
-	return {'quick': 500, 'thorough': 12000}[tier]
+	return {'quick': 800, 'thorough': 15000}[tier]
 
 
 def enum_cases(tier):
@@ -93,7 +93,81 @@ def make_fault(ctx, ftype):
 	raise ValueError(ftype)
 
 
+def run_cli_create(case, ctx):
+	"""`gambit signatures create -c N -k K -p AT -o OUT files...`: one signature per file, in file order, labelled by file."""
+	import numpy as np
+	from vlib.cli import run_cli
+	from vlib.refmodel import kmer as RK
+	from gambit.sigs.base import load_signatures
+	import gzip as _gz
+	k = case['k']
+	n = case['n']
+	paths = list(make_files(ctx, case['fileset'], n, case['skew'], k))
+	fault = case['fault']
+	if fault is not None:
+		paths[fault['pos'] % n] = make_fault(ctx, fault['type'])
+	out = ctx.fresh_path('.gs')
+	args = ['signatures', 'create', '-k', str(k), '-p', 'AT', '-o', out, '--no-progress']
+	if case['max_workers'] is not None:
+		args += ['-c', str(case['max_workers'])]
+	listmode = case.get('listfile')
+	if listmode and fault is None:
+		lf = ctx.fresh_path('.txt')
+		open(lf, 'w').write('\n'.join(paths) + '\n')
+		args += ['-l', lf, '--ldir', '/']
+	else:
+		args += paths
+	res = run_cli(args)
+	if fault is not None and fault['type'] in ('missing', 'directory'):
+		# click itself rejects these paths (exists=True, dir_okay=False)
+		if res.exit_code == 0:
+			raise Violation('fault_swallowed', f'signatures create accepted an unreadable path ({fault["type"]})', case)
+		return {'nontrivial': True, 'classes': ['mode=cli_create', 'fault=' + fault['type']]}
+	if fault is not None:
+		if res.exit_code == 0:
+			try:
+				with load_signatures(out) as s:
+					ln = len(s)
+			except Exception:
+				ln = 'unreadable'
+			raise Violation('fault_swallowed', f'signatures create exited 0 although file {fault["pos"] % n} ({fault["type"]}) cannot be parsed; output has {ln} signatures', case)
+		if os.path.exists(out):
+			try:
+				with load_signatures(out) as s:
+					raise Violation('fault_partial_output', f'signatures create failed but left a loadable signature file with {len(s)} signatures', case)
+			except Violation:
+				raise
+			except Exception:
+				pass
+		return {'nontrivial': True, 'classes': ['mode=cli_create', 'fault=' + fault['type']]}
+	if res.exit_code != 0:
+		raise Violation('exception', f'signatures create failed: exit {res.exit_code}: {res.stderr[-300:]} {res.exception!r}', case)
+	from vlib.clihelp import expected_label
+	with load_signatures(out) as s:
+		ids = [str(x) for x in s.ids]
+		sigs = [[int(v) for v in s[i]] for i in range(len(s))]
+		spec = (s.kmerspec.k, s.kmerspec.prefix_str)
+	if spec != (k, 'AT'):
+		raise Violation('kmerspec', f'created file has spec {spec}', case)
+	want_ids = [expected_label(p) for p in paths]
+	if ids != want_ids:
+		raise Violation('misplaced', f'created file ids {ids} != file labels in input order {want_ids}', case)
+	for i, p in enumerate(paths):
+		data = open(p, 'rb').read()
+		if data[:2] == b'\x1f\x8b':
+			data = _gz.decompress(data)
+		contigs = [b''.join(rec.split(b'\n')[1:]) for rec in data.split(b'>')[1:]]
+		exp = RK.ref_signature(contigs, k, b'AT')
+		if sigs[i] != exp:
+			where = [j for j in range(n) if sigs[i] == sigs[j] and j != i]
+			raise Violation('misplaced', f'signature {i} of the created file is not the signature of file {i} ({os.path.basename(p)})', case)
+	return {'nontrivial': n >= 2 and case['max_workers'] not in (None, 1), 'classes': ['mode=cli_create', f'n={n}', f'workers={case["max_workers"]}',
+	        'size_skew' if case['skew'] else 'no_skew', 'listfile' if listmode else 'positional']}
+
+
 def run_case(case, ctx):
+	if case.get('mode') == 'cli_create':
+		return run_cli_create(case, ctx)
 	import numpy as np
 	from gambit.kmers import KmerSpec
 	from gambit.seq import SequenceFile
@@ -211,14 +285,15 @@ def run_case(case, ctx):
 @st.composite
 def gen_case(draw, tier):
 	n = draw(st.integers(1, 8))
-	mode = draw(st.sampled_from(['ordered', 'threads', 'processes', 'instant', 'none', 'ordered', 'threads']))
+	mode = draw(st.sampled_from(['ordered', 'threads', 'processes', 'instant', 'none', 'ordered', 'threads', 'cli_create']))
 	fault = draw(st.one_of(st.none(), st.none(), st.builds(lambda p, t: {'pos': p, 'type': t}, st.integers(0, 7),
 	                                                        st.sampled_from(['missing', 'directory', 'truncated_gzip', 'bad_utf8', 'junk', 'text']))))
 	return {
 		'kind': 'sched', 'fileset': draw(st.integers(100, 140)), 'n': n, 'mode': mode,
 		'perm': draw(st.permutations(list(range(n)))), 'k': draw(st.sampled_from([6, 5, 8])),
-		'skew': draw(st.booleans()) if mode in ('threads', 'processes') else False,
-		'max_workers': draw(st.sampled_from([2, 1, 3, 8, 16])),
+		'skew': draw(st.booleans()) if mode in ('threads', 'processes', 'cli_create') else False,
+		'max_workers': draw(st.sampled_from([2, 1, 3, 8, 16] + ([None] if mode == 'cli_create' else []))),
+		'listfile': draw(st.booleans()),
 		'fault': fault,
 	}
 
